@@ -106,6 +106,28 @@ def run(ctx) -> None:
                     ok = bool(ds) and all(isinstance(v, ast.Call) and any(cal.func == cans for cal in db.resolve_call(v, impl)) and v.args and src(v.args[0]) == src(g_arg) for d, v in ds)
                     why = "active set = compute_active_node_set(<same graph>)" if ok else "the active set handed to the scheduler is not compute_active_node_set of the graph being run"
                 rep.add("C16.R1", f"{impl.qname}:get_ready_nodes#{n_calls}", ok, f"{impl.module.rel}:{n.lineno}", why)
+        # the scheduler reached through a helper of the runner: the active set must still be this activation's own
+        # local — an attribute of the runner is shared with every nested run the same runner executes re-entrantly
+        for n in cfg.nodes:
+            for c in cfg.calls_at(n):
+                for cal in db.resolve_call(c, impl):
+                    m = cal.func
+                    if m is None or m is impl or m.cls is None or impl.cls is None or not (impl.cls.is_subclass_of(m.cls) or m.cls.is_subclass_of(impl.cls) or m.cls is impl.cls):
+                        continue
+                    for c2 in db.calls_in(m):
+                        if not any(k.func == grn for k in db.resolve_call(c2, m)):
+                            continue
+                        n_calls += 1
+                        a2 = bind_args(c2, grn).get("active_nodes")
+                        if isinstance(a2, ast.Name) and a2.id in m.param_names:
+                            arg = bind_args(c, m).get(a2.id)
+                            ds = defs_reaching(cfg, rd, n, arg.id) if isinstance(arg, ast.Name) else []
+                            ok2 = bool(ds) and all(isinstance(v, ast.Call) and any(k.func == cans for k in db.resolve_call(v, impl)) for d, v in ds)
+                            why2 = "active set = compute_active_node_set(<same graph>), handed through a helper" if ok2 else "the active set handed to the scheduler helper is not compute_active_node_set of the graph being run"
+                        else:
+                            ok2 = False
+                            why2 = f"the scheduler helper {m.name} takes the active set from '{src(a2) if a2 is not None else 'nothing'}', not from this activation's own computation: the same runner object executes nested graphs re-entrantly, so a nested run overwrites the scope and the outer run continues unrestricted — nodes upstream of the entry point execute and overwrite the caller's values"
+                        rep.add("C16.R1", f"{impl.qname}:get_ready_nodes#{n_calls}", ok2, f"{impl.module.rel}:{n.lineno}", why2)
         if n_calls < 1:
             raise AnalysisError(f"{impl.qname}: scheduler calls not found")
     # computed from the current entry points, no cached view
